@@ -1163,7 +1163,7 @@ pub async fn run_history_with(cfg: &HCfg, monitors: Monitors, hist: &[Ev], compl
         terminal = Some(format!("{:?}", w.ledger.iter().map(|l| (l.complete, l.failures.clone(), l.cancelled)).collect::<Vec<_>>()));
     }
     if let Some(v) = violation.as_mut() {
-        v.replay = json!({"engine":"hsim","cfg":format!("{:?}",cfg),"history":format!("{:?}",hist)});
+        v.replay = json!({"engine":"hsim","cfg":format!("{:?}",cfg),"history":format!("{:?}",hist),"also":w.violations.iter().map(|x| x.key.clone()).collect::<Vec<_>>()});
         v.detail = format!("{} [history {:?}]", v.detail, hist);
     }
     // tear down: handlers exit when their channels drop with the runtime
